@@ -69,7 +69,9 @@ static Fn parse_fn(Args& a)
 	return f;
 }
 
-static std::string do_int(Args& a)
+// `nested`: the outer integrand performs, at every evaluation, an inner Integrate call with its own
+// integrand, limits, epsilon and depth, discards its value and returns fn(x).  The outer run must not notice.
+static std::string do_int(Args& a, bool nested = false)
 {
 	int tr	   = (int) a.i64();
 	Fn fn	   = parse_fn(a);
@@ -77,6 +79,17 @@ static std::string do_int(Args& a)
 	double hi  = a.dbl();
 	double eps = a.dbl();
 	int depth  = (int) a.i64();
+	Fn ifn;
+	double ilo = 0, ihi = 0, ieps = 0;
+	int idepth = 0;
+	if(nested)
+	{
+		ifn	   = parse_fn(a);
+		ilo	   = a.dbl();
+		ihi	   = a.dbl();
+		ieps   = a.dbl();
+		idepth = (int) a.i64();
+	}
 	a.end();
 	return run([&](Out& o) {
 		std::vector<double> xs;
@@ -92,6 +105,17 @@ static std::string do_int(Args& a)
 				mx = x;
 			if(tr)
 				xs.push_back(x);
+			if(nested)
+			{
+				// the inner call's warnings must not be mistaken for the outer call's
+				std::ostringstream sink_out, sink_err;
+				std::streambuf* o2 = std::cout.rdbuf(sink_out.rdbuf());
+				std::streambuf* e2 = std::cerr.rdbuf(sink_err.rdbuf());
+				volatile double inner = Integrate([&](double y) { return ifn(y); }, ilo, ihi, ieps, idepth);
+				(void) inner;
+				std::cout.rdbuf(o2);
+				std::cerr.rdbuf(e2);
+			}
 			return fn(x);
 		};
 		std::ostringstream cap_out, cap_err;
@@ -112,6 +136,8 @@ std::string handle(const std::string& op, Args& a)
 {
 	if(op == "c03.int" || op == "c03.fam")
 		return do_int(a);
+	if(op == "c03.nested" || op == "c03.nestedf")
+		return do_int(a, true);
 	throw BadOp();
 }
 }	// namespace hz
